@@ -127,6 +127,10 @@ def _fn_case(case):
     _, v3 = FSC(a * np.float32(g), b, dfreq)
     case.check(np.allclose(v, v3, atol=2e-4, equal_nan=True), "FSC changed by positive rescaling", gain=g,
                err=float(np.nanmax(np.abs(np.asarray(v) - np.asarray(v3)))) if len(v) else 0)
+    tiny = np.float32(1e-8)
+    _, v4 = FSC(a * tiny, b * tiny, dfreq)
+    case.check(np.allclose(v, v4, atol=2e-4, equal_nan=True), "FSC changed when both inputs are rescaled to a tiny amplitude", None,
+               err=float(np.nanmax(np.abs(np.asarray(v) - np.asarray(v4)))) if len(v) else 0)
     _, vs = FSC(a, a, dfreq)
     rf, rv, cnt, fa, fb, amb, _ = ref.fsc(a, a, dfreq)
     nn = min(len(vs), len(cnt))
